@@ -79,7 +79,8 @@ REQUIRED = {
     'gets-full': 30, 'sum-full': 20, 'sum-full-rejects': 20,
     'tt-dense-agree': 30, 'diff': 60, 'inverse': 30, 'linear': 30,
     'sin-inverse': 30, 'sin-linear': 30, 'general': 30, 'general-get': 30,
-    'general-callable': 30, 'shape': 100, 'get-far-integer-box': 100}
+    'general-callable': 30, 'shape': 100, 'get-far-integer-box': 100,
+    'sum-long': 40}
 REQUIRED_EVENTS = {'default-box': 5}      # a = b = None was exercised
 ASSUMPTIONS = [
     'numpy.polynomial (polyval, chebval, polyint, chebint, polyder, chebder) '
@@ -115,6 +116,10 @@ def gen_cases(seed, tier):
     step = max(1, len(out) // nf)
     for j, s in enumerate(rng.integers(1 << 62, size=nf).tolist()):
         out.insert(j * step, {'seed': s, 'fam': 'farbox', 'big': big})
+    nl = 60 if tier == 'quick' else 1500
+    step = max(1, len(out) // nl)
+    for j, s in enumerate(rng.integers(1 << 62, size=nl).tolist()):
+        out.insert(j * step + 1, {'seed': s, 'fam': 'longsum', 'big': big})
     return out
 
 
@@ -491,8 +496,54 @@ def run_case(case, ctx):
     import teneva
     rng = np.random.default_rng(case['seed'])
     {'tt': case_tt, 'dense': case_dense, 'diff': case_diff, 'lin': case_lin,
-        'general': case_general, 'farbox': case_farbox}[case['fam']](
+        'general': case_general, 'farbox': case_farbox,
+        'longsum': case_longsum}[case['fam']](
         case, ctx, teneva, rng)
+
+
+def case_longsum(case, ctx, teneva, rng):
+    """Many modes, boxes far from unit size, densities that compensate the
+    volume (every one-dimensional factor integrates to about 1): the integral
+    is an ordinary number although the volume alone under/overflows."""
+    d = int(rng.integers(40, 121))
+    lw = float(rng.choice([-1., 1.])) * float(rng.uniform(3, 6))
+    w = 10.0 ** lw                                  # box width
+    q = int(rng.integers(1, 3))                     # TT-rank
+    n = [int(rng.integers(2, 5)) for _ in range(d)]
+    a = [float(np.round(rng.uniform(-1, 1), 2)) * w for _ in range(d)]
+    b = [x + w for x in a]
+    A, ints = [], []
+    for k in range(d):
+        G = np.zeros((1 if k == 0 else q, n[k], 1 if k == d - 1 else q))
+        I_ = np.zeros((G.shape[0], G.shape[2]), dtype=LD)
+        for t in range(q):
+            c = rng.normal(size=n[k]) * 0.2
+            c[0] = 1. + 0.3 * rng.random()
+            c = c / w                               # density ~ 1 / width
+            G[0 if k == 0 else t, :, 0 if k == d - 1 else t] = c
+            # int_{a}^{b} sum_j c_j T_j = (b - a) / 2 * sum_{j even} 2 c_j/(1-j^2)
+            v = sum(LD(2) * LD(c[j]) / (1 - LD(j) ** 2) for j in
+                range(0, n[k], 2)) * (LD(b[k]) - LD(a[k])) / 2
+            I_[0 if k == 0 else t, 0 if k == d - 1 else t] = v
+        A.append(G)
+        ints.append(I_)
+    want = ints[0]
+    for M in ints[1:]:
+        want = want @ M
+    want = want[0, 0]
+    same = rng.random() < 0.3
+    if same:
+        a, b = [a[0]] * d, [b[0]] * d
+        # (the per-mode integrals depend on b - a only, which is unchanged)
+    got = teneva.func_sum(A, a[0] if same else (a if rng.random() < 0.5 else
+        np.array(a)), b[0] if same else (b if rng.random() < 0.5 else
+        np.array(b)))
+    tol = S * EPS * (4 * max(n) + q + 4) * d * abs(want)
+    ctx.check('sum-long', bool(np.isfinite(got)) and abs(LD(got) - want) <= tol,
+        lambda: f'func_sum over {d} modes, box width 1e{lw:.1f}, densities of '
+        f'size 1/width: got {got!r}, the integral is {float(want)!r} '
+        f'(volume alone = 1e{lw * d:.0f})', ranks=q)
+    ctx.nontrivial(['longsum', d, int(lw), q])
 
 
 def case_farbox(case, ctx, teneva, rng):
